@@ -11,20 +11,37 @@ export VERIF_FUZZ_PROPS="${IDS[*]}"
 SEED="${VERIF_SEED:-0}"; [ "$SEED" = "0" ] && SEED=1
 WORK="$PWD/work/$T"; rm -rf "$WORK" "corpus/$T" "artifacts/$T"; mkdir -p "$WORK" "corpus/$T" "artifacts/$T"
 if ! cargo +nightly fuzz build "$T" >"$WORK/build.log" 2>&1; then echo "INCONCLUSIVE: fuzz build failed"; tail -n 20 "$WORK/build.log"; exit 2; fi
-# start corpus: bundled files (large ones cut), generated documents, the committed reproductions, an empty input
-for f in /repo/resources/*; do head -c 8192 "$f" > "corpus/$T/res-$(basename "$f" | tr -c 'A-Za-z0-9._-' '_')"; done
-../target/release/check gen-corpus "$PWD/corpus/$T" 200
-for id in "${IDS[@]}"; do for f in ${VERIF_ROOT:-/verif}/regress/$id/*.osu; do [ -f "$f" ] && cp "$f" "corpus/$T/regress-$id-$(basename "$f")"; done; done
+EXT=osu; MAXLEN=8192
+if [ "$T" = "tape" ]; then
+  # generator-tape fuzzing: the corpus is a set of pseudo-random tapes; artefacts are replayed as .ftape
+  EXT=ftape; MAXLEN=4096
+  ../target/release/check gen-tapes "$PWD/corpus/$T" 300
+elif [ "$T" = "grammar" ]; then
+  # text-level grammar fuzzing: generated section bodies (three selector bytes + text); artefacts are .gtext
+  EXT=gtext; MAXLEN=2048
+  ../target/release/check gen-gtext "$PWD/corpus/$T" "${IDS[0]}" 300
+else
+  # start corpus: bundled files (large ones cut), generated documents, the committed reproductions, an empty input
+  for f in /repo/resources/*; do head -c 8192 "$f" > "corpus/$T/res-$(basename "$f" | tr -c 'A-Za-z0-9._-' '_')"; done
+  ../target/release/check gen-corpus "$PWD/corpus/$T" 200
+  for id in "${IDS[@]}"; do for f in ${VERIF_ROOT:-/verif}/regress/$id/*.osu; do [ -f "$f" ] && cp "$f" "corpus/$T/regress-$id-$(basename "$f")"; done; done
+fi
 BIN="target/x86_64-unknown-linux-gnu/release/$T"
 START=$(date +%s)
-( cd "$WORK" && "../../$BIN" "../../corpus/$T" -artifact_prefix="../../artifacts/$T/" -max_total_time="$SECS" -jobs=16 -workers=16 -max_len=8192 -len_control=0 -timeout=60 -rss_limit_mb=4096 -seed="$SEED" -print_final_stats=1 >"$WORK/driver.log" 2>&1 )
+( cd "$WORK" && "../../$BIN" "../../corpus/$T" -artifact_prefix="../../artifacts/$T/" -max_total_time="$SECS" -jobs=16 -workers=16 -max_len=$MAXLEN -len_control=0 -timeout=60 -rss_limit_mb=4096 -seed="$SEED" -print_final_stats=1 >"$WORK/driver.log" 2>&1 )
 END=$(date +%s)
 EXECS=$(grep -h "stat::number_of_executed_units" "$WORK"/fuzz-*.log 2>/dev/null | awk '{s+=$2} END{print s+0}')
 CORPUS=$(ls "corpus/$T" | wc -l)
 FEAT=$(grep -ho "ft: [0-9]*" "$WORK"/fuzz-*.log 2>/dev/null | awk '{if($2>m)m=$2} END{print m+0}')
 COV=$(grep -ho "cov: [0-9]*" "$WORK"/fuzz-*.log 2>/dev/null | awk '{if($2>m)m=$2} END{print m+0}')
 NART=$(ls "artifacts/$T" 2>/dev/null | wc -l)
-printf '{"target":"%s","sanitizer":"address","seconds":%d,"workers":16,"executions":%d,"corpus_files":%d,"max_features":%d,"max_cov":%d,"artifacts":%d,"seed":%d}\n' "$T" $((END-START)) "$EXECS" "$CORPUS" "$FEAT" "$COV" "$NART" "$SEED" > "$STATS"
+DOM=""
+if [ "$T" = "grammar" ]; then
+  # how much of the final corpus is inside the line-level domain (the rest is excluded, not judged)
+  read -r DIN DOUT < <(../target/release/check gdomain "${IDS[0]}" "$PWD/corpus/$T")
+  DOM=$(printf ',"corpus_in_domain":%d,"corpus_outside_domain":%d' "${DIN:-0}" "${DOUT:-0}")
+fi
+printf '{"target":"%s","property":"%s","sanitizer":"address","seconds":%d,"workers":16,"executions":%d,"corpus_files":%d,"max_features":%d,"max_cov":%d,"artifacts":%d,"seed":%d%s}\n' "$T" "${IDS[*]}" $((END-START)) "$EXECS" "$CORPUS" "$FEAT" "$COV" "$NART" "$SEED" "$DOM" > "$STATS"
 echo "fuzz[$T]: ${EXECS} executions in $((END-START))s, corpus ${CORPUS}, artifacts ${NART}"
 rc=0
 for a in "artifacts/$T"/*; do
@@ -33,8 +50,9 @@ for a in "artifacts/$T"/*; do
     crash-*|leak-*)
       found=0
       for id in "${IDS[@]}"; do
-        out=$(../target/release/check "$id" --replay "$PWD/$a" 2>&1); r=$?
-        if [ $r -eq 1 ]; then mkdir -p "${VERIF_ROOT:-/verif}/replays/$id"; cp "$a" "${VERIF_ROOT:-/verif}/replays/$id/fuzz-$(basename "$a").osu"; echo "VIOLATION property=$id replay=${VERIF_ROOT:-/verif}/replays/$id/fuzz-$(basename "$a").osu"; echo "$out" | grep detail | head -3; found=1; rc=1; fi
+        cp "$a" "$WORK/replay.$EXT"
+        out=$(../target/release/check "$id" --replay "$WORK/replay.$EXT" 2>&1); r=$?
+        if [ $r -eq 1 ]; then mkdir -p "${VERIF_ROOT:-/verif}/replays/$id"; cp "$a" "${VERIF_ROOT:-/verif}/replays/$id/fuzz-$(basename "$a").$EXT"; echo "VIOLATION property=$id replay=${VERIF_ROOT:-/verif}/replays/$id/fuzz-$(basename "$a").$EXT"; echo "$out" | grep detail | head -3; found=1; rc=1; fi
       done
       if [ $found -eq 0 ]; then
         if grep -l "AddressSanitizer" "$WORK"/fuzz-*.log >/dev/null 2>&1 && [ "$T" = "total" ]; then
